@@ -722,8 +722,12 @@ def pair_only(history, viol) -> list:
     signature.  What remains is anchored at the first assignment and marked '|pair-only'."""
     cls, tname = history["cls"], history.get("target", "self")
     (a1, v1), (a2, v2) = history["ops"]
-    pre, mid = bool(history.get("pre")), bool(history.get("mid"))
-    singles = list(_single_violations(cls, tname, a1, v1, pre)) + list(_single_violations(cls, tname, a2, v2, pre or mid))
+    # both starting points of each single (as created / re-loaded): a defect that needs a cached value
+    # shows in one of them only, and the pair may reach that cache state through its other assignment
+    singles = []
+    for attr, vi in ((a1, v1), (a2, v2)):
+        for variant in (False, True):
+            singles += list(_single_violations(cls, tname, attr, vi, variant))
     explained = set()
     for _, _, det in singles:
         explained |= set(det.get("about", ()))
